@@ -126,6 +126,9 @@ pub fn tail_of(kind: &str) -> (Vec<u8>, &'static str) {
         "max_u32" => (bare_header(false, u32::MAX, u32::MAX, 77), "toolarge"),
         "limit_plus1" => (bare_header(false, 0, MAX - 16 + 1, 77), "toolarge"),
         "limit_plus1_be" => (bare_header(true, 8, MAX - 24 + 1, 77), "toolarge"),
+        // the padding between the fields array and the body counts: 16 + fields + body <= limit < padded total
+        "limit_pad1" => (bare_header(false, 5, MAX - 24 + 1, 77), "toolarge"),     // 21 + pad 3 + body = limit + 1
+        "limit_pad7_be" => (bare_header(true, 1, MAX - 24 + 7, 77), "toolarge"),   // 17 + pad 7 + body = limit + 7
         "at_limit" => (bare_header(false, 0, MAX - 16, 77), "partial"),
         "at_limit_be" => (bare_header(true, 8, MAX - 24, 77), "partial"),
         _ => return (vec![], "none"),
@@ -196,7 +199,7 @@ pub fn random_scenario(rng: &mut Rng, id: u64, max_msgs: u64, max_blob: u64, at_
     let via = *rng.pick(&["auth", "client", "client", "server"]);
     let n = 1 + rng.below(max_msgs) as usize;
     let msgs: Vec<Crafted> = (0..n).map(|i| random_msg(rng, (i + 1) as u32, true, max_blob)).collect();
-    let tails = ["none", "none", "none", "none", "none", "big_body_le", "big_body_be", "big_fields", "max_u32", "limit_plus1", "limit_plus1_be"];
+    let tails = ["none", "none", "none", "none", "none", "big_body_le", "big_body_be", "big_fields", "max_u32", "limit_plus1", "limit_plus1_be", "limit_pad1", "limit_pad7_be"];
     // (the accepted-at-the-limit tail makes zbus allocate 128 MiB: keep it rare)
     let tk = if at_limit_den > 0 && rng.chance(1, at_limit_den) { "at_limit" } else { *rng.pick(&tails) };
     let (mut tail, mut tailkind) = tail_of(tk);
